@@ -68,20 +68,20 @@ Print Assumptions C08_dead_token_refused.
 
 (* from then on: once a revocation of token n answered 200, no later state of any
    continuation of the history holds n (so, by C08_dead_token_refused, it is refused everywhere) *)
-Theorem C08_revoke_effective : forall cl pre r c t h post n,
-  let s0 := state_after cl init pre in
+Theorem C08_revoke_effective : forall cl pol pre r c t h post n,
+  let s0 := state_after cl (init pol) pre in
   snd (step cl s0 (Revoke r c t h)) = OOk -> denotes t = AT n ->
   find_tok n (toks (fst s0)) <> None ->
-  find_tok n (toks (fst (state_after cl init (pre ++ Revoke r c t h :: post)))) = None.
+  find_tok n (toks (fst (state_after cl (init pol) (pre ++ Revoke r c t h :: post)))) = None.
 Proof. exact revoke_effective. Qed.
 Print Assumptions C08_revoke_effective.
 
 (* after an accepted end_session for (user, client), any token of that user and client in a
    later state was minted after the logout *)
-Theorem C08_logout_effective : forall cl pre r hint cid post u k n tr,
-  let s0 := state_after cl init pre in
+Theorem C08_logout_effective : forall cl pol pre r hint cid post u k n tr,
+  let s0 := state_after cl (init pol) pre in
   snd (step cl s0 (EndSession r hint cid)) = ORedirect -> session_of hint cid = Some (u, k) ->
-  find_tok n (toks (fst (state_after cl init (pre ++ EndSession r hint cid :: post)))) = Some tr ->
+  find_tok n (toks (fst (state_after cl (init pol) (pre ++ EndSession r hint cid :: post)))) = Some tr ->
   tr_client tr = k -> tr_sub tr = u -> snd s0 < n.
 Proof. exact logout_effective. Qed.
 Print Assumptions C08_logout_effective.
